@@ -106,7 +106,14 @@ func runC15(r *Run) {
 				}
 				return op
 			case 3:
-				return gOp{Kind: "Patch", Bucket: "bkt", Name: existingName(d, m, "bkt", srcNames), Body: map[string]interface{}{"metadata": map[string]string{"p": fmt.Sprint(i)}}}
+				body := map[string]interface{}{"metadata": map[string]string{"p": fmt.Sprint(i)}}
+				if d.n(2) == 0 {
+					// members that are sub-objects of the resource (a copy must not share them)
+					body["acl"] = []map[string]string{{"entity": fmt.Sprintf("user-%d", i), "role": "READER"}}
+					body["owner"] = map[string]string{"entity": fmt.Sprintf("user-%d", i)}
+					r.Probe("c15.patch_of_sub_objects")
+				}
+				return gOp{Kind: "Patch", Bucket: "bkt", Name: existingName(d, m, "bkt", append(append([]string(nil), srcNames...), dsts...)), Body: body}
 			default:
 				return gOp{Kind: "Delete", Bucket: "bkt", Name: existingName(d, m, "bkt", srcNames)}
 			}
